@@ -114,3 +114,42 @@ pub fn raw_with_file_offset_is_still_not_owned() {
         Err(_) => assert!(false, "C15: page aligned raw pointer refused"),
     }
 }
+
+// file-backed construction (two cooperating sites: check_file_offset decides, build acts): whatever the
+// file size, the seek outcome and mmap's answer, a request that is refused leaves NO mapping behind, the
+// range check comes before anything is mapped, and an accepted request owns exactly what was mapped.
+#[kani::proof]
+#[kani::unwind(4)]
+pub fn build_file_backed_never_leaks() {
+    use std::os::fd::FromRawFd;
+    let size: usize = kani::any();
+    let start: u64 = kani::any();
+    let flags: i32 = kani::any();
+    let file = std::mem::ManuallyDrop::new(unsafe { std::fs::File::from_raw_fd(7) });
+    // a second owner keeps the File alive whatever build() drops (close(2) is a foreign call)
+    let arc = std::sync::Arc::new(unsafe { std::ptr::read(&*file) });
+    let keep = std::mem::ManuallyDrop::new(arc.clone());
+    let fo = FileOffset::from_arc(arc, start);
+    let r = MmapRegionBuilder::<()>::new(size).with_mmap_flags(flags).with_file_offset(fo).build();
+    let (calls, ok, seeks, late) = unsafe { (ffi::MMAP_CALLS, ffi::MMAP_OK, ffi::SEEK_CALLS, ffi::SEEK_AFTER_MMAP) };
+    kani::cover!(r.is_ok());
+    kani::cover!(matches!(r, Err(Error::MappingPastEof)));
+    assert!(!late, "C15,C12: the file range must be validated BEFORE anything is mapped");
+    match &r {
+        Ok(reg) => {
+            assert!(flags & libc::MAP_FIXED == 0, "C15: MAP_FIXED must be refused");
+            assert!(calls == 1 && ok == 1 && seeks == 1, "C15,C12: an accepted file-backed request is one range check and one mmap");
+            let a = unsafe { ffi::MMAP_ARGS };
+            assert!(a.1 == size && a.4 == 7 && a.5 as u64 == start, "C15,C12: mmap must be asked for (size, fd, offset) of the request");
+            assert!((start as u128) + (size as u128) <= unsafe { ffi::FILE_SIZE } as u128, "C15: a range that extends past the end of the file was accepted");
+            assert!(reg.owned() && reg.size() == size && reg.as_ptr() as usize == unsafe { ffi::MMAP_RET }, "C12: the region owns exactly the mapping it made");
+        }
+        Err(_) => {
+            // nothing may stay mapped when construction fails: every successful mmap was given back
+            assert!(ok as isize - unsafe { ffi::MUNMAP_CALLS } as isize == 0, "C12,C15: a refused file-backed request left a mapping behind (leak)");
+            if (start as u128) + (size as u128) > u64::MAX as u128 { assert!(calls == 0, "C15,C12: an overflowing file range must be refused before mmap"); }
+        }
+    }
+    // do not run the File destructor (close is a foreign call); the mapping part of Drop is K-region's other harnesses
+    std::mem::forget(r);
+}
